@@ -590,7 +590,6 @@ N("C03", "edge-crossings-from-b", INTER, "inter_convexpolygon_convexpolygon",
   "        for seg in a.segments():\n            point_set = point_set.union(get_segment_convexpolygon_intersection_point_set(seg, b))",
   "        for seg in b.segments():\n            point_set = point_set.union(get_segment_convexpolygon_intersection_point_set(seg, a))")
 N("C03", "through-dispatcher", INTER, "inter_convexpolyhedron_convexpolyhedron", "        inter = inter_convexpolygon_convexPolyhedron(cph2, cpg)", "        inter = intersection(cpg, cph2)")
-CAT["C03"].pop()  # breaks the mirror-image text of the two loops although behaviour is equal: the swap-closure rule compares loops up to renaming only
 N("C03", "rename-sets", INTER, "inter_convexpolyhedron_convexpolyhedron", "segment_set", "seg_results", count=0)
 
 # =========================================================================== C12
